@@ -80,6 +80,19 @@ def run(ctx):
                      "eval.FixedOperators / FloatOperators and the names of eval.FixedFunctions / FloatFunctions into an "
                      "eval.Evaluator whose functions build strings; the exported fields make the parse tree observable",
                      "strings.TrimSpace is modelled on bytes (ASCII blanks and the UTF-8 encodings of the Unicode White_Space runes)"]
+    ctx.modelled += ["proved (Props/C09.lean, about the definitions the driver runs): parse_render — parseTop(render e) = tree e "
+                     "at character level for the full language (atoms incl. exponent literals 1.2e-2 and $variables, nested "
+                     "function calls f ( a , b ), all binary operators, signs before atoms/calls/parentheses, parentheses) in "
+                     "every blank layout; call_capture — processFunction's loop = counting '(' / ')' bytes, for every text; "
+                     "nextArg_split — NextArg iterated splits a rendered argument list at exactly its separating commas; "
+                     "evaluate_render_partial / evaluate_reuse_render_partial — Evaluate(render e) = bracketed form incl. "
+                     "nested EvaluateNew through function arguments (atoms without `$`); evaluate_render_vars_partial — the "
+                     "same with variables outside call arguments; evaluate_no_panic / evaluate_total — Evaluate of EVERY "
+                     "byte list neither panics nor exhausts a fuel (resolver answers `$`-free and not longer than `$name`)",
+                     "NOT proved (kept as C09.evaluate_render_Statement): variables INSIDE call arguments at the evaluation "
+                     "level (substitution on the raw argument text before it is parsed again); covered by the struct and "
+                     "val differential streams only.  The operator/function VALUES (fixed/float arithmetic, division by "
+                     "zero as configured) are not modelled in Lean at all: they are tied by the val stream"]
     ctx.assumptions += ["variable resolvers return literals (text without `$`); a resolver answering with `$…` makes "
                         "replaceVariables loop, which is outside the property's quantifier",
                         "function calls in well-formed expressions have the arity of the function (`max()` vs `max( )` "
@@ -100,7 +113,8 @@ def run(ctx):
     ctx.diff(area="struct", driver="drv_c09", n={"quick": 120000, "thorough": 6000000}, stateful=True,
              trivial=lambda l, o: o in ("err", "ok -"),
              tagger=lambda l, o: ("struct:" + o.split(" ", 1)[0]) if l[:1] in "sf" else None,
-             theorem="C09.parse_render_partial / parse_no_panic / precedence_table are about Eval.parseLoop; the "
-                     "implementation builds a different tree (or fails differently) than the model on this input")
+             theorem="C09.parse_render / evaluate_render_partial / evaluate_no_panic / precedence_table are about "
+                     "Eval.parseLoop / Eval.evaluate; the implementation builds a different tree (or fails differently) "
+                     "than the model on this input")
     _wf(ctx, {"quick": 30000, "thorough": 1500000})
     _val(ctx, {"quick": 30000, "thorough": 1000000})
